@@ -138,6 +138,12 @@ pub proof fn axiom_utf8_drop_ascii(b: Seq<u8>)
     requires is_utf8(b), b.len() > 0, b.last() < 0x80u8
     ensures is_utf8(b.drop_last())
 {}
+// ASCII is UTF-8
+#[verifier::external_body]
+pub proof fn axiom_ascii_utf8(b: Seq<u8>)
+    requires forall|i: int| 0 <= i < b.len() ==> b[i] < 0x80u8
+    ensures is_utf8(b)
+{}
 #[verifier::external_body]
 pub proof fn axiom_utf8_empty()
     ensures is_utf8(Seq::<u8>::empty())
